@@ -116,12 +116,18 @@ def concretize(case, root: Path, rng_pick):
         out_path = root / "out" / "r.codetf"
         out_path.parent.mkdir()
     elif c["output"] == "unwritable":
-        kind = case.get("variant", 0) % 2
+        kind = case.get("variant", 0) % 3
         if kind == 0:
             out_path = root / "no-such-parent" / "r.codetf"
-        else:
+        elif kind == 1:
             out_path = root / "isdir"
             out_path.mkdir()
+        else:
+            # the path is fine, the report is not: a command-line argument with a byte that is not UTF-8 (a lone surrogate once
+            # decoded) ends up in run.commandLine and cannot be serialised
+            out_path = root / "out-unencodable" / "r.codetf"
+            out_path.parent.mkdir()
+            extra += ["--project-name", "caf\udce9"]
     if out_path is not None:
         extra += ["--output", str(out_path)]
     # the extra (well-formed) options go right after the first token so that they are parsed
